@@ -125,6 +125,14 @@ Definition py_contains_char (needle hay : pyval) : pyval :=
   | _, _ => PErr
   end.
 
+(* `a in l` for a list l (scalar elements) or a one-character needle in a str *)
+Definition py_in (a l : pyval) : pyval :=
+  match l with
+  | PList xs => PBool (existsb (fun x => match py_eq a x with PBool true => true | _ => false end) xs)
+  | PStr _ => py_contains_char a l
+  | _ => PErr
+  end.
+
 (* f-string of string pieces *)
 Fixpoint py_fconcat (l : list pyval) : pyval :=
   match l with
